@@ -504,19 +504,18 @@ func (s *Server) handlePostTx(w http.ResponseWriter, r *http.Request) {
 		return
 	}
 
-	// TODO(fwd): Ensure halt lock is held by caller.
-	// TODO(fwd): Prevent halt lock release during copy & apply.
-
-	// Wrap request body in a chunked reader.
-	ltxPath, err := db.WriteLTXFileAt(r.Context(), r.Body)
+	lockID, err := strconv.ParseInt(q.Get("lockID"), 10, 64)
 	if err != nil {
-		Error(w, r, fmt.Errorf("write ltx file: %s", err), http.StatusInternalServerError)
+		Error(w, r, fmt.Errorf("invalid lockID: %q", q.Get("lockID")), http.StatusBadRequest)
 		return
 	}
 
-	// Apply transaction to database.
-	if err := db.ApplyLTXNoLock(ltxPath, true); err != nil {
-		Error(w, r, fmt.Errorf("cannot apply ltx: %s", err), http.StatusInternalServerError)
+	// Write & apply the transaction while the caller's halt lock is pinned.
+	if err := db.CommitForwardedLTX(r.Context(), lockID, r.Body); err == litefs.ErrHaltLockNotHeld {
+		Error(w, r, err, http.StatusConflict)
+		return
+	} else if err != nil {
+		Error(w, r, err, http.StatusInternalServerError)
 		return
 	}
 }
